@@ -55,7 +55,8 @@ func (c12) RunBatch(ctx *core.Ctx, batch int) {
 	case 1:
 		// powers, distances, numbers
 		for _, in := range []string{"a~1", "a~0", "a~-2", "a~7", "a^1", "a^1.0", "a^0.5", "a^2", "a^1e3", "a^1e-3", "a^3.25", "(a:b)^2~3", "a:5.0", "a:1e5", "a:1e30", "a:-0.0", "a:0.1", "a:[1.0 TO 2.5]", "a:[1e30 TO *]",
-			"a:[5.0 TO 6.0]", "a:(1 OR 2.0 OR 3.5)", "a:(1.0 OR x)", `a:""`, `""`, `a:["" TO ""]`, `a:("" OR "")`, "a:9223372036854775807", "a:9223372036854775808", "a:-9223372036854775808", "a:1e-320", "5:6", "1.5:x", "a:007", "a:0x1p4"} {
+			"a:[5.0 TO 6.0]", "a:(1 OR 2.0 OR 3.5)", "a:(1.0 OR x)", `a:""`, `""`, `a:["" TO ""]`, `a:("" OR "")`, "a:9223372036854775807", "a:9223372036854775808", "a:-9223372036854775808", "a:1e-320", "5:6", "1.5:x", "a:007", "a:0x1p4",
+			`a:/C:\\/`, `/foo\\/ OR x:y`, `a:/x\/y/`, `a:/\//`, `a:/a\\\/b/`, `/a b\\/`, `a:[/x\\/ TO b]`, `a:(x OR x)`, `a:(1 OR 1 OR 2)`, `5:c*`, `1.5:/re/`, `a:[5 TO 5]`} {
 			in := in
 			ctx.Case(in, func() { c12Check(ctx, "numbers", in) })
 		}
